@@ -38,12 +38,13 @@ import (
 func main() { harness.Main("C11", "exploration", run) }
 
 func run(e *harness.Env) {
-	e.Rule = "full product of pages P in 1..4 x header {none, same on all pages, odd/even, different on every page, same + unique sub-line sharing its prefix, 'Section n Overview', running lines identical on every page that contain one number / two adjacent numbers (year range, version) / two distant numbers / a page's own number, in the top band and (with a digit-free one) in the bottom band; part (B) runs these ten kinds on Letter pages x body {unique, numeric, numeric 80 pt from either edge}} " +
+	e.Rule = "full product of pages P in 1..4 x header {none, same on all pages, odd/even, different on every page, same + unique sub-line sharing its prefix, 'Section n Overview', running lines identical on every page that contain one number / two adjacent numbers (year range, version) / two distant numbers / a page's own number, in the top band and (with a digit-free one) in the bottom band, a marginal line drawn twice on one page (shadow copy 1.5 pt off; unique per page / running; top and bottom); part (B) runs these thirteen kinds on Letter pages x body {unique, numeric, numeric 80 pt from either edge}} " +
+		"+ sub-space 'running line absent from some pages' {title page without the running header, a line on the first two pages only} x P in 2..6 x 3 page-number settings x body {unique, numeric} x every single page and pair; " +
 		"x running page number {none, or style n | Page n | n of N | - n - (thorough: + Page n of N | n/N | p. n | pg n) printed in the bottom or top band} " +
 		"x body {unique, a line repeated at one body position, the running header's text at a body position, numeric, numeric 72/80/101 pt from the bottom or top edge, a repeated line inside the top / bottom band on one page only, " +
-		"the same text inside the bottom band of every page at positions 13 pt apart}; (A) fragment sets x page size {Letter, A4, mixed} x fragment order {top-down, bottom-up} through Detect + FilterFragments on every page (exact attribution by fragment id); " +
+		"the same text inside the bottom band of every page at positions 13 pt apart}; (A) fragment sets x page size {Letter, A4, mixed} x fragment order {top-down, bottom-up} through Detect + FilterFragments on every page (exact attribution by fragment id), the same sequence a second time on the same page data, and the per-page loop Analyzer.AnalyzeWithHeaderFooterFiltering(pages, i); after every call the caller's fragment slices must equal a deep copy taken before; " +
 		"(B) PDFs x page size {Letter, mixed} x requested pages {all, each single page, each pair} x {ExcludeHeaders, ExcludeFooters, ExcludeHeadersAndFooters} x {Text, Lines, Paragraphs, ReadingOrder, Blocks, Analyze, Document, ToMarkdown}, " +
-		"filtered vs unfiltered result of the same call (quick prunes (B): edge distance 80 only, top page numbers in 2 styles, no pairs of 4-page documents, single-side modes and mixed sizes on 3 APIs); " +
+		"filtered vs unfiltered result of the same call, plus selection independence: a removable-but-not-required line that the all-pages result removes (keeps) everywhere is removed (kept) in every partial selection (quick prunes (B): edge distance 80 only, top page numbers in 2 styles, no pairs of 4-page documents, single-side modes and mixed sizes on 3 APIs); " +
 		"(C) DOCX/ODT header part x footer part x 11 near-miss/equal body paragraphs x position x mode x {Text, ToMarkdown}, PPTX 1..3 slides x all 16 subsets of {ftr, sldNum, dt, hdr} placeholders x body text equal to footer / slide number x mode x {Text, ToMarkdown}. " +
 		"distinct = descriptors; non-trivial = documents of >= 2 pages with a header, a page number or a non-plain body variant (office: with a header/footer part or placeholder)"
 	e.Assumptions = []string{
